@@ -37,6 +37,7 @@ pub enum K {
     D,
     Rd,
     W,
+    Xd,
 }
 
 pub enum H {
@@ -51,6 +52,7 @@ pub enum H {
     Rd(*const dyn Probe),
     #[allow(dead_code)]
     W(*mut P),
+    Xd(UniqueArc<dyn Probe>),
 }
 
 #[derive(Clone, Debug)]
@@ -95,6 +97,7 @@ fn data_ptr(h: &H) -> usize {
         H::D(d) => d.as_ptr() as *const () as usize,
         H::Rd(r) => *r as *const () as usize,
         H::W(w) => *w as usize,
+        H::Xd(x) => &**x as *const dyn Probe as *const () as usize,
     }
 }
 
@@ -222,6 +225,12 @@ pub enum HOp {
     IntoInner,
     DerefMutW,
     DynGetMutW,
+    /// unsized unique handles: Arc<dyn> -> UniqueArc<dyn> (try_unique on an unsized payload),
+    /// UniqueArc<T> -> UniqueArc<dyn> (unsize feature), back to a shareable Arc<dyn>
+    DynTryUnique,
+    UnsizeUnique,
+    DynShareable,
+    DynDerefMutW,
     /// the same call with the payload's `Clone` armed to panic at its first invocation
     MakeMutPanic,
     MakeUniquePanic,
@@ -269,6 +278,10 @@ const ALL_HOPS: &[HOp] = &[
     HOp::IntoInner,
     HOp::DerefMutW,
     HOp::DynGetMutW,
+    HOp::DynTryUnique,
+    HOp::UnsizeUnique,
+    HOp::DynShareable,
+    HOp::DynDerefMutW,
     HOp::MakeMutPanic,
     HOp::MakeUniquePanic,
     HOp::OffMakeMutPanic,
@@ -286,7 +299,10 @@ fn applicable(k: K, op: HOp) -> bool {
     use HOp::*;
     match op {
         Clone => matches!(k, K::A | K::O | K::U1 | K::U2 | K::E | K::D),
-        Drop => matches!(k, K::A | K::O | K::U1 | K::U2 | K::E | K::D | K::X),
+        Drop => matches!(k, K::A | K::O | K::U1 | K::U2 | K::E | K::D | K::X | K::Xd),
+        DynTryUnique => k == K::D,
+        UnsizeUnique => k == K::X && cfg!(feature = "cfg_all"),
+        DynShareable | DynDerefMutW => k == K::Xd,
         IntoOffset | IntoU1 | IntoU2 | IntoRaw | Erase | IntoDyn | BorrowCloneArc | BorrowWithArcClone | FromPtrCloneArc | WithRawOffsetClone | WithRawOffsetCloneArc | GetMutW | GetUniqueW | MakeMutW | MakeUniqueW | TryUnique | TryFromU | TryUnwrap | UnwrapOrClone | MakeMutPanic | MakeUniquePanic | UnwrapOrClonePanic => k == K::A,
         UnsizeDyn | IntoW => k == K::A && cfg!(feature = "cfg_all"),
         FromW => k == K::W,
@@ -310,7 +326,8 @@ fn may_allocate(op: HOp) -> bool {
 fn home(op: HOp) -> u32 {
     use HOp::*;
     match op {
-        GetMutW | GetUniqueW | DerefMutW | DynGetMutW => VERDICT,
+        GetMutW | GetUniqueW | DerefMutW | DynGetMutW | DynDerefMutW => VERDICT,
+        DynTryUnique => VERDICT | UNWRAP,
         TryUnique | TryFromU => VERDICT | UNWRAP,
         MakeMutW | MakeUniqueW | OffMakeMutW => COW,
         MakeMutPanic | MakeUniquePanic | OffMakeMutPanic | UnwrapOrClonePanic => COW | UNWRAP | LIFETIME,
@@ -472,7 +489,7 @@ fn step_inner(r: &mut Real, m: &mut Model, op: &Op, cx: &mut Ctx) -> bool {
                         compare(&exp, &delta(&s), hc, false, &what, cx);
                         true
                     }
-                    IntoOffset | FromOffset | IntoU1 | IntoU2 | IntoRaw | FromRaw | Erase | Unerase | IntoDyn | UnsizeDyn | DynIntoRaw | DynFromRaw | IntoW | FromW | Shareable => {
+                    IntoOffset | FromOffset | IntoU1 | IntoU2 | IntoRaw | FromRaw | Erase | Unerase | IntoDyn | UnsizeDyn | DynIntoRaw | DynFromRaw | IntoW | FromW | Shareable | UnsizeUnique | DynShareable => {
                         let h = r.hs.remove(i);
                         let nh = cap(|| match (h, hop) {
                             (H::A(x), IntoOffset) => H::O(Arc::into_raw_offset(x)),
@@ -499,6 +516,12 @@ fn step_inner(r: &mut Real, m: &mut Model, op: &Op, cx: &mut Ctx) -> bool {
                             #[cfg(feature = "cfg_all")]
                             (H::W(x), FromW) => H::A(unsafe { <Arc<P> as arc_swap::RefCnt>::from_ptr(x) }),
                             (H::X(x), Shareable) => H::A(x.shareable()),
+                            #[cfg(feature = "cfg_all")]
+                            (H::X(x), UnsizeUnique) => {
+                                use unsize::{CoerceUnsize, Coercion};
+                                H::Xd(x.unsize(Coercion!(to dyn Probe)))
+                            }
+                            (H::Xd(x), DynShareable) => H::D(x.shareable()),
                             _ => unreachable!(),
                         });
                         compare(&exp, &delta(&s), hc, false, &what, cx);
@@ -506,8 +529,12 @@ fn step_inner(r: &mut Real, m: &mut Model, op: &Op, cx: &mut Ctx) -> bool {
                         r.hs.insert(i, nh);
                         true
                     }
-                    GetMutW | GetUniqueW | DerefMutW | DynGetMutW => {
+                    GetMutW | GetUniqueW | DerefMutW | DynGetMutW | DynDerefMutW => {
                         let granted = cap(|| match (&mut r.hs[i], hop) {
+                            (H::Xd(x), DynDerefMutW) => {
+                                x.flip_dyn();
+                                true
+                            }
                             (H::A(x), GetMutW) => Arc::get_mut(x).map(|p| p.flip()).is_some(),
                             (H::A(x), GetUniqueW) => Arc::get_unique(x).map(|u| u.flip()).is_some(),
                             (H::X(x), DerefMutW) => {
@@ -588,6 +615,25 @@ fn step_inner(r: &mut Real, m: &mut Model, op: &Op, cx: &mut Ctx) -> bool {
                         }
                         // otherwise nothing may have changed: same allocation, same count, same value
                         compare(&exp, &delta(&s), hc, false, &what, cx);
+                        true
+                    }
+                    DynTryUnique => {
+                        let h = r.hs.remove(i);
+                        let H::D(x) = h else { unreachable!() };
+                        let (nh, ok) = cap(|| match Arc::try_unique(x) {
+                            Ok(u) => (H::Xd(u), true),
+                            Err(a) => (H::D(a), false),
+                        });
+                        let expect = m.al(a).owners == 1;
+                        compare(&exp, &delta(&s), hc, true, &what, cx);
+                        r.hs.insert(i, nh);
+                        if ok != expect {
+                            cx.fail(VERDICT | UNWRAP, "uniqueness-verdict", format!("{}: sole ownership of the trait object granted={} but the model has {} owning handles", what, ok, m.al(a).owners));
+                            return false;
+                        }
+                        if ok {
+                            m.hs[i].k = K::Xd;
+                        }
                         true
                     }
                     TryUnique | TryFromU => {
@@ -711,6 +757,7 @@ fn read_handle(h: &H) -> Peek {
         H::D(d) => d.pk(),
         H::Rd(r) => unsafe { (**r).pk() },
         H::W(w) => unsafe { (**w).peek() },
+        H::Xd(x) => x.pk(),
     }
 }
 
@@ -726,6 +773,7 @@ fn kind_of(h: &H) -> K {
         H::D(_) => K::D,
         H::Rd(_) => K::Rd,
         H::W(_) => K::W,
+        H::Xd(_) => K::Xd,
     }
 }
 
@@ -870,6 +918,12 @@ impl Universe for US {
                     addrs.push(("UniqueArc Deref", &**x as *const P as usize, al.data));
                     if own != 1 {
                         cx.fail(VERDICT, "unique-shared", format!("{}: a UniqueArc exists while the model has {} owners", tag, own));
+                    }
+                }
+                H::Xd(x) => {
+                    addrs.push(("UniqueArc<dyn> Deref", &**x as *const dyn Probe as *const () as usize, al.data));
+                    if own != 1 {
+                        cx.fail(VERDICT, "unique-shared", format!("{}: a UniqueArc<dyn> exists while the model has {} owners", tag, own));
                     }
                 }
                 H::R(p) => {
